@@ -35,6 +35,13 @@ KINDS = {
     'rt_syntax_exec': (['>>> src = chr(10).join(["a = 1", "b = 2", "c = 3", "d = ("])', '>>> exec(src)'], 'SyntaxError', 1),
     'rt_syntax_compile': (['>>> compile(chr(10).join(["x = 1", "", "", "", "y = = 2"]), "inner.py", "exec")'], 'SyntaxError', 0),
     'badrepr': (['>>> BadRepr()', 'zzz'], 'ExtractGotReprException', 0),
+    # a value whose repr raises, checked against a want, after an earlier want-less statement has printed something
+    # (the class lives in the module under test / in an earlier part of the doctest)
+    'badrepr_mod_afterprint': (['>>> print("noise")', '', '>>> ModBadRepr()', 'zzz'], 'ExtractGotReprException', 2),
+    'badrepr_afterprint': (['>>> print("noise")', '', '>>> BadRepr()', 'zzz'], 'ExtractGotReprException', 2),
+    # the failing doctest also emitted a (recorded) warning before it failed
+    'warn_then_exc': (['>>> import warnings', '>>> warnings.warn("w9")', '>>> 1/0'], 'ZeroDivisionError', 2),
+    'warn_then_wrongout': (['>>> import warnings', '>>> warnings.warn("w9")', '>>> print("a")', 'b'], 'GotWantException', 3),
     'badrepr_nowant_print': (['>>> print(BadRepr())'], 'RuntimeError', 0),
     'baddirective': (['>>> x = 1  # xdoctest: +REQUIRES(bogus)'], 'Exception', 0),
     'baddirective2': (['>>> # xdoctest: +REQUIRES(env:A>=1)', '>>> x = 1'], 'Exception', 0),
@@ -45,7 +52,8 @@ KINDS = {
 HELP = ['>>> def hs():', '...     raise ValueError("hs")', '>>> def hl():', '...     a = 1', '...     b = 2',
         '...     c = 3', '...     d = 4', '...     raise ValueError("hl")',
         '>>> class BadRepr:', '...     def __repr__(self):', '...         raise RuntimeError("norepr")']
-MOD = 'def modboom():\n    raise ValueError("modboom")\n'
+MOD = ('def modboom():\n    raise ValueError("modboom")\n\n\nclass ModBadRepr(object):\n    def __repr__(self):\n'
+       '        raise RuntimeError("norepr")\n\n\n')
 DIMS = [
     ('kind', list(KINDS)),
     ('pos', ['middle', 'first', 'last']),
@@ -55,7 +63,7 @@ DIMS = [
 FILE_LINE_RE = re.compile(r'File "[^"]*", line (\d+),.*wrt source file')
 
 
-NEEDS_HELP = {'helper_short', 'helper_long', 'badrepr', 'badrepr_nowant_print'}
+NEEDS_HELP = {'helper_short', 'helper_long', 'badrepr', 'badrepr_nowant_print', 'badrepr_afterprint'}
 
 
 def build(kind, pos, pre):
